@@ -81,6 +81,20 @@ def fam_c10(R, n):
             s_ = '#[logos(skip(%s, priority = 3, ignore(case)))]' % rust_str(p)
             b = '#[regex(%s, priority = 2)] B,' % rust_str('(?i:%s)' % p)
             out.append(dict(family='c10-skip', src=enum([s_], [b]), meta=dict(pattern=p.encode('utf-8').hex(), icase=True, unicode=True, pair=(0, 1))))
+    # every accepted spelling of the flag group means the same
+    for sp in ['ignore(case,)', 'ignore( case )', 'ignore(case, case)', 'ignore(case,case,)', 'ignore(\n        case,\n    )']:
+        for (w, lit) in [('select', rust_str('select')), ('Ké', rust_str('Ké'))]:
+            a = '#[token(%s, priority = 3, %s)] A,' % (lit, sp)
+            b = '#[regex(%s, priority = 2)] B,' % rust_str('(?i:%s)' % my_escape(w))
+            out.append(dict(family='c10-spelling', src=enum([], [a, b]), meta=dict(lit=w.encode('utf-8').hex(), icase=True, unicode=True, pair=(0, 1), token_leaf=0, expect_prio=3)))
+        a = '#[regex("k[a-c]+", priority = 3, %s)] A,' % sp
+        b = '#[regex("(?i:k[a-c]+)", priority = 2)] B,'
+        out.append(dict(family='c10-spelling', src=enum([], [a, b]), meta=dict(pattern='k[a-c]+'.encode().hex(), icase=True, unicode=True, pair=(0, 1))))
+        s_ = '#[logos(skip("sk+", priority = 3, %s))]' % sp
+        out.append(dict(family='c10-spelling', src=enum([s_], ['#[regex("(?i:sk+)", priority = 2)] B,']), meta=dict(pattern='sk+'.encode().hex(), icase=True, unicode=True, pair=(0, 1))))
+        a = '#[token(%s, priority = 3, %s)] A,' % (rust_bytes(b'ab\xff'), sp)
+        b = '#[regex(%s, priority = 2)] B,' % rust_str('(?i-u:ab\\xff)')
+        out.append(dict(family='c10-spelling', src=enum(['#[logos(utf8 = false)]'], [a, b]), meta=dict(lit=b'ab\xff'.hex(), icase=True, unicode=False, pair=(0, 1), token_leaf=0)))
     # patterns with look-around assertions: ignore(case) must not touch the assertion
     for p in ['ab$', 'k(?-u:\\b)', 'a(?m:$)\\n?', 'sk(?-u:\\B)x', 'ask(?-u:\\b{end})', 'é(?mR:$)']:
         a = '#[regex(%s, priority = 3, ignore(case))] A,' % rust_str(p)
@@ -138,6 +152,21 @@ def fam_c11(R, n):
             attrs = ['#[logos(subpattern s0 = %s)]' % rust_str(inner)]
             out.append(dict(family='c11-escapes', src=enum(attrs, ['#[regex(%s, priority = 3)] A,' % rust_str(pat), '#[regex(%s, priority = 2)] B,' % rust_str(ref)]),
                             meta=dict(pair=(0, 1), pattern=pat, reference=ref)))
+    # references inside non-ASCII text (byte offsets and character counts differ): before, after and between multi-byte characters,
+    # with short and long tails
+    for sub in ['[0-9]', 'ab|c', 'é', '[α-ω]+']:
+        for shape in ['§(?&s0)+', 'é(?&s0)', '(?&s0)é', '中(?&s0){2}', '§§(?&s0)?x', '😀(?&s0)*', '(?&s0)+€€€', 'é(?&s0)é(?&s0)é', 'ä(?&s0)|ö', '[äö](?&s0)b']:
+            pat = shape
+            ref = shape.replace('(?&s0)', '(?u:%s)' % sub)
+            attrs = ['#[logos(subpattern s0 = %s)]' % rust_str(sub)]
+            out.append(dict(family='c11-nonascii', src=enum(attrs, ['#[regex(%s, priority = 3)] A,' % rust_str(pat), '#[regex(%s, priority = 2)] B,' % rust_str(ref)]),
+                            meta=dict(pair=(0, 1), pattern=pat, reference=ref)))
+    for inner, outer in [('[0-9]', 'é(?&s0)+'), ('é|ö', '(?&s0)ü'), ('x', '§(?&s0)')]:
+        inl0 = '(?u:%s)' % inner
+        inl1 = '(?u:%s)' % outer.replace('(?&s0)', inl0)
+        attrs = ['#[logos(subpattern s0 = %s)]' % rust_str(inner), '#[logos(subpattern s1 = %s)]' % rust_str(outer)]
+        out.append(dict(family='c11-nonascii', src=enum(attrs, ['#[regex("ß(?&s1)", priority = 3)] A,', '#[regex(%s, priority = 2)] B,' % rust_str('ß' + inl1)]),
+                        meta=dict(pair=(0, 1), pattern='ß(?&s1)', reference='ß' + inl1)))
     # the edges of a subpattern's source are part of it: whitespace of every kind, an empty alternative, a dash, a dot, an escape
     for edge in [' ', '\t', '\n', '\r', '\u00a0', '\u2003', '  ', '|', '-', '.', '\\ ', '#', '\x0b', '\x0c']:
         for sub in [edge + 'a', 'a' + edge, edge + 'a' + edge, edge]:
@@ -232,6 +261,30 @@ def fam_c08(R, n):
             leaves = [(False, p_, pr_) for p_, pr_ in zip(trip, prs)]
             vs = ['#[regex(%s, priority = %d)] V%d,' % (rust_str(p_), pr_, j) for j, (_, p_, pr_) in enumerate(leaves)]
             out.append(dict(family='c08-enum', src=enum([], vs), meta=dict(leaves=leaves)))
+    # enumerated: the same tie in every pair of attribute positions (regex, token, skip, skip with a callback), both orders, with and
+    # without a lower-priority bystander
+    forms = {'regex': lambda p, pr: ('v', '#[regex(%s, priority = %d)] V%%d,' % (rust_str(p), pr)),
+             'token': lambda p, pr: ('v', '#[token(%s, priority = %d)] V%%d,' % (rust_str(p), pr)),
+             'skip': lambda p, pr: ('a', '#[logos(skip(%s, priority = %d))]' % (rust_str(p), pr)),
+             'skipcb': lambda p, pr: ('a', '#[logos(skip(%s, priority = %d, callback = |_| logos::Skip))]' % (rust_str(p), pr))}
+    for fa in ('regex', 'token', 'skip', 'skipcb'):
+        for fb in ('regex', 'token', 'skip', 'skipcb'):
+            for (pa, pb) in [('ab', 'ab'), ('ab', '[a-c]b'), ('\\n', '[ \\t\\n]')]:
+                if (fa == 'token' and not pa.isalnum()) or (fb == 'token' and not pb.isalnum()):
+                    continue
+                for bystander in (False, True):
+                    attrs, vs = [], []
+                    for (f_, p_) in ((fa, pa), (fb, pb)):
+                        kind, text = forms[f_](p_, 6)
+                        if kind == 'a':
+                            attrs.append(text)
+                        else:
+                            vs.append(text % len(vs))
+                    if bystander:
+                        vs.append('#[regex("[a-z\\n]+", priority = 1)] W,')
+                    if not vs:
+                        vs.append('#[token("zzzz")] Z,')
+                    out.append(dict(family='c08-positions', src=enum(attrs, vs), meta=dict(leaves=None)))
     # enumerated: every look-around pattern of the pool against companions that match the same text and may go on
     # (the tie then exists only in some following contexts, and the ambiguous DFA state may still have outgoing edges)
     companions = ['a', 'a[a-z]*', 'a[a-zA-Z0-9_]*', 'ab', 'a+', '[a-z]+', 'a[a-z0-9_]{2,}', 'a-', 'a\\n?']
